@@ -144,3 +144,47 @@ Proof.
   destruct (own_rows_only d d' i (H i)) as (Hm & Hr & Hc).
   rewrite Hr. f_equal; [f_equal; f_equal; apply map_ext; intros o; apply Hm|apply map_ext; intros c; apply Hc].
 Qed.
+
+(* ---------------- row labels ---------------- *)
+Lemma loc_single (f : lframe) l r : NoDup (map fst f) -> In (l, r) f ->
+  map snd (filter (fun lr => Nat.eqb (fst lr) l) f) = [r].
+Proof.
+  induction f as [|[l' r'] f IH]; intros ND H; [destruct H|].
+  inversion ND as [|? ? Hl ND']; subst. cbn [filter fst].
+  destruct (Nat.eqb l' l) eqn:E.
+  - apply Nat.eqb_eq in E. subst l'. destruct H as [H|H].
+    + inversion H; subst. cbn [map snd]. f_equal.
+      assert (G : filter (fun lr : nat * row => Nat.eqb (fst lr) l) f = []).
+      { clear -Hl. induction f as [|[a b] f IHf]; [reflexivity|]. cbn [filter fst].
+        destruct (Nat.eqb a l) eqn:Ea.
+        - apply Nat.eqb_eq in Ea. subst. exfalso. apply Hl. left. reflexivity.
+        - apply IHf. intros Hin. apply Hl. right. exact Hin. }
+      rewrite G. reflexivity.
+    + exfalso. apply Hl. apply (in_map fst) in H. exact H.
+  - destruct H as [H|H]; [inversion H; subst; rewrite Nat.eqb_refl in E; discriminate|].
+    apply IH; assumption.
+Qed.
+
+(* with unique labels, selecting by the labels of the matching rows is selecting the matching rows *)
+Theorem label_select_unique (p : row -> bool) (f : lframe) :
+  NoDup (map fst f) -> label_select p f = mask_select p f.
+Proof.
+  intros ND. unfold label_select, mask_select, labels_where, loc, rows_of.
+  assert (G : forall g, (forall x, In x g -> In x f) ->
+     flat_map (fun l => map snd (filter (fun lr => Nat.eqb (fst lr) l) f)) (map fst (filter (fun lr => p (snd lr)) g))
+     = filter p (map snd g)).
+  { induction g as [|[l r] g IH]; intros Hsub; [reflexivity|].
+    cbn [filter map snd fst]. destruct (p r) eqn:Ep.
+    - cbn [map fst flat_map]. rewrite (loc_single f l r ND (Hsub _ (or_introl eq_refl))).
+      cbn [app]. f_equal. apply IH. intros x Hx. apply Hsub. right. exact Hx.
+    - apply IH. intros x Hx. apply Hsub. right. exact Hx. }
+  apply G. auto.
+Qed.
+
+(* with repeated labels it is not: rows of other individuals come along *)
+Theorem label_select_refuted : exists (p : row -> bool) (f : lframe), label_select p f <> mask_select p f.
+Proof.
+  pose (ra := {| r_id := "a"%string; r_time := Some 1%Q; r_obs := None; r_value := None; r_dose := None; r_dur := None |}).
+  pose (rb := {| r_id := "b"%string; r_time := Some 2%Q; r_obs := None; r_value := None; r_dose := None; r_dur := None |}).
+  exists (has_id "a"%string), [(0%nat, ra); (0%nat, rb)]. cbv. discriminate.
+Qed.
